@@ -34,11 +34,50 @@ theorem fold_txid (c : Cfg) (ops : List TxOp) : ∀ st : Engine × Txn, (ops.fol
   | cons op ops ih => intro st; rw [List.foldl_cons, ih, stepTx_txid]
 
 theorem Rec.begin {s : Engine} (h : Rec s) : Rec s.beginWrite.1 :=
-  h.congr rfl rfl rfl rfl (Nat.le_succ _)
+  h.congr rfl rfl rfl rfl (Nat.le_succ _) rfl rfl rfl rfl
 
 /-- an abandoned transaction keeps the recovery invariant -/
 theorem tx_abort_rec (c : Cfg) {s0 : Engine} (h : Rec s0) (ops : List TxOp) : Rec (runTx c s0 ops false) :=
   Rec.fold c ops s0.beginWrite h.begin
+
+/-- staging keeps the checkpoint txid and only moves the txid counter up -/
+theorem stepTx_frame2 (c : Cfg) (st : Engine × Txn) (op : TxOp) :
+    (stepTx c st op).1.ckptTxid = st.1.ckptTxid ∧ st.1.nextTxid ≤ (stepTx c st op).1.nextTxid := by
+  have G : ∀ (s : Engine) l, (s.getOrCreateLabel l).1.ckptTxid = s.ckptTxid ∧ s.nextTxid ≤ (s.getOrCreateLabel l).1.nextTxid := by
+    intro s l; unfold Engine.getOrCreateLabel; split
+    · exact ⟨rfl, Nat.le_refl _⟩
+    · exact ⟨rfl, Nat.le_succ _⟩
+  cases op with
+  | node x lab =>
+    have hi : (internLabel st.1 lab).1.ckptTxid = st.1.ckptTxid ∧ st.1.nextTxid ≤ (internLabel st.1 lab).1.nextTxid := by
+      cases lab with
+      | none => exact ⟨rfl, Nat.le_refl _⟩
+      | some l => exact G st.1 l
+    simp only [stepTx]
+    split <;> exact hi
+  | labelAdd n nm => exact G st.1 nm
+  | labelDel n nm => exact G st.1 nm
+  | edge a nm b => exact G st.1 nm
+  | tombNode n => exact ⟨rfl, Nat.le_refl _⟩
+  | tombEdge a nm b => exact G st.1 nm
+  | nprop n k v => exact ⟨rfl, Nat.le_refl _⟩
+  | npropDel n k => exact ⟨rfl, Nat.le_refl _⟩
+  | eprop a nm b k v => exact G st.1 nm
+  | epropDel a nm b k => exact G st.1 nm
+  | vec n v =>
+    show (st.2.setVector c st.1 n v).1.ckptTxid = _ ∧ _ ≤ (st.2.setVector c st.1 n v).1.nextTxid
+    unfold Txn.setVector
+    split <;> exact ⟨rfl, Nat.le_refl _⟩
+
+theorem fold_frame2 (c : Cfg) (ops : List TxOp) : ∀ st : Engine × Txn,
+    (ops.foldl (stepTx c) st).1.ckptTxid = st.1.ckptTxid ∧ st.1.nextTxid ≤ (ops.foldl (stepTx c) st).1.nextTxid := by
+  induction ops with
+  | nil => intro st; exact ⟨rfl, Nat.le_refl _⟩
+  | cons op ops ih =>
+    intro st
+    obtain ⟨h1, h2⟩ := stepTx_frame2 c st op
+    obtain ⟨h3, h4⟩ := ih (stepTx c st op)
+    exact ⟨h3.trans h1, Nat.le_trans h2 h4⟩
 
 /-- a committed transaction (current record order) keeps both invariants -/
 theorem tx_commit2 {s0 g0} (h : Sim s0 g0) (hr : Rec s0) (ops : List TxOp)
@@ -58,7 +97,8 @@ theorem tx_commit2 {s0 g0} (h : Sim s0 g0) (hr : Rec s0) (ops : List TxOp)
   have hnd := hst.L.extND
   rw [hv, List.nodup_append] at hnd
   obtain ⟨hnd1, _, hdisj⟩ := hnd
-  have hcommit := Rec.commit hrs hmt (by rw [htxid]; exact hr.txidPos)
+  have hfr := fold_frame2 Cfg.current ops s0.beginWrite
+  have hcommit := Rec.commit hrs hmt (by rw [htxid, hfr.1]; exact hr.ckptLt) (by rw [htxid]; exact hfr.2)
     (by intro i c hc; rw [hid, h.L.lenE]; exact hst.L.ids i c hc)
     (by
       intro c hc
